@@ -456,7 +456,7 @@ def _bn_post(m, cfg, pattern):
         m.running_var.copy_(pat_tensor((f,), 3, 0.4, dtype=torch.float32) + 0.9)
 
 
-reg(Subject("BatchNorm", {"features": [3, 1], "eps": [1e-5, 1e-2], "momentum": [0.1, 0.5]}, lambda c: T.BatchNorm(c["features"], eps=c["eps"], momentum=c["momentum"]),
+reg(Subject("BatchNorm", {"features": [3, 1], "eps": [1e-5, 1e-2], "momentum": [0.1, 0.5], "affine": [True, False]}, lambda c: T.BatchNorm(c["features"], eps=c["eps"], momentum=c["momentum"], affine=c["affine"]),
             lambda c: (c["features"],), kind="elementwise", post=_bn_post))
 reg(Subject("ActNorm", {"dims": ["2d", "4d"], "features": [2, 3, 1], "hw": [[2, 1], [1, 3]]}, lambda c: T.ActNorm(c["features"]),
             lambda c: (c["features"],) if c["dims"] == "2d" else (c["features"], c["hw"][0], c["hw"][1]), kind="elementwise"))
